@@ -290,6 +290,20 @@ def run(ctx):
         ctx.require(ok, "R11.3", "fields-by-name", "each field is initialised from the same-named value", n.loc(n.line), detail=str(fs if final else None))
         igf = [pathx.desc(x) for c, x in thir.calls_in(root) if strip_generics(c).endswith("IgnoreFilter::new")]
         ctx.require(len(igf) == 1 and "ignore_files" in igf[0], "R11.3", "ignore-files-loaded", "the ignore_files argument is loaded through IgnoreFilter::new", n.loc(n.line))
+        # ... in the order given (listed order is precedence between files of one directory, C03 R03.3): no reordering operation anywhere in GlobsetFilterer::new
+        from .c03 import UNORDERED as _UNORD
+        reord = []
+        for g in [n] + facts.descendants(n):
+            for _, t in g.calls():
+                full = (t.callee.full or "") + " " + (t.callee.def_ or "")
+                for u in _UNORD + ("::sort", "sort_by", "dedup", "::reverse", "BTreeSet", "BTreeMap"):
+                    if u in full and not g.macro(t.mac):
+                        reord.append(strip_generics(t.callee.def_))
+        igargs = [[pathx.desc(a) for a in x["a"]] for c, x in thir.calls_in(root) if strip_generics(c).endswith("IgnoreFilter::new")]
+        ctx.require(not reord and igargs == [["origin", "Iterator::collect(IntoIterator::into_iter(ignore_files))"]], "R11.3", "ignore-files-order-kept",
+                    "the ignore files reach IgnoreFilter::new as given (collected, not sorted / de-duplicated / hashed)", n.loc(n.line), detail="%s %s" % (sorted(set(reord))[:4], igargs),
+                    fail="GlobsetFilterer::new reorders its inputs before loading them (%s / %s): precedence between ignore files of one directory no longer follows the listed order"
+                         % (sorted(set(reord))[:4], igargs))
     except Skip:
         pass
 
